@@ -572,11 +572,13 @@ func (nodes IndividualNodes) Merge(other IndividualNodes, document *Document, op
 
 			merged = append(merged, node.(*IndividualNode))
 
+		// Individuals that only exist on one side are copied so that they belong
+		// to the new document and not to the document they came from.
 		case left != nil:
-			merged = append(merged, left)
+			merged = append(merged, DeepCopy(left, document).(*IndividualNode))
 
 		case right != nil:
-			merged = append(merged, right)
+			merged = append(merged, DeepCopy(right, document).(*IndividualNode))
 		}
 	}
 
